@@ -140,7 +140,18 @@ def _sum(it, a, kw):
     raise Unsupported("sum")
 
 
-for nm, f in {"np.array": _np_array, "np.cumsum": _cumsum, "np.searchsorted": _searchsorted, "jax.vmap": _vmap,
+def _mean(it, a, kw):
+    x = a[0]
+    if LM.is_arr(x):
+        s_ = _sum(it, [x], {})
+        n = to_z3(x.length)
+        return s_ / z3.ToReal(n)
+    if isinstance(x, Opaque) and getattr(it.run, "uninterp_libs", False):
+        return Opaque("lib:np.mean", list(a))
+    raise Unsupported("mean")
+
+
+for nm, f in {"np.mean": _mean, "np.array": _np_array, "np.cumsum": _cumsum, "np.searchsorted": _searchsorted, "jax.vmap": _vmap,
               "np.zeros": _zeros, "np.ones": _ones, "np.arange": _arange, "np.sum": _sum}.items():
     LM._MODELS[nm] = f
 
